@@ -17,8 +17,8 @@ Init == l = 1 /\ known = [d \in Known |-> 0] /\ bad = <<>> /\ nviol = 0
 Next ==
   /\ l <= NEv /\ l' = l + 1
   /\ LET ev == Tr[l] IN
-     IF ev.out = Out({}, ev) THEN UNCHANGED <<known, bad, nviol>>
-     ELSE LET ms == {DS \in DevSets : ev.out = Out(DS, ev)} IN
+     IF SameOut(ev.out, Out({}, ev)) THEN UNCHANGED <<known, bad, nviol>>
+     ELSE LET ms == {DS \in DevSets : SameOut(ev.out, Out(DS, ev))} IN
           IF ms # {}
           THEN /\ known' = [d \in Known |-> known[d] + (IF \A DS \in ms : d \in DS THEN 1 ELSE 0)]
                /\ UNCHANGED <<bad, nviol>>
